@@ -303,11 +303,22 @@ def _sink(message):
     r.rec("log", rec["level"].name, rec["message"])
 
 
+_orig_set_event = simmanager.MosaikRemote.set_event
+
+
+async def _recording_set_event(self, event_time):
+    r = ctx.CUR
+    if r is not None:
+        r.rec("set_event_processed", self.sid, event_time)
+    return await _orig_set_event(self, event_time)
+
+
 def install():
     global _installed
     if _installed:
         return
     _installed = True
+    simmanager.MosaikRemote.set_event = _recording_set_event
     scheduler.perf_counter = _now
     _debug.perf_counter = _now
     scenario.set = ChoiceSet
